@@ -1,8 +1,8 @@
 (** Extraction of the C20 specification and site models (ExtrOcamlBasic only; Z stays the extracted datatype). *)
-Require Import H4.LimitsSpec H4.LimitsModel.
+Require Import H4.gen.Gen_Limits H4.LimitsSpec H4.LimitsModel.
 Require Extraction.
 Require ExtrOcamlBasic.
 Extraction "../extract/gen/limits_model.ml" LimitsSpec.step LimitsSpec.init
   m_getdiskblock m_vinsertpair m_endoff m_hwrite m_vsetname m_vsetclass m_vssetname m_vsfdefine m_vssetfields
   m_vsseek m_vswrite_total m_newref_next m_tagnewref m_sdcreate_ok m_reset_maxopen ntsize alloc_dd find_elem get_vg get_vs
-  d_open_count resize m_hseek m_chunk_ref m_vpackvs_size m_sdsetattr m_grsetattr.
+  d_open_count resize m_hseek m_chunk_ref m_vpackvs_size m_sdsetattr m_grsetattr sdcreate_too_many_vars coordvar_too_many_vars putattr_too_many truth file_get sd_needs_coordvar attr_count_of attr_key.
